@@ -95,6 +95,22 @@ var props = map[string]propCfg{
 		Stub:   []string{"database/sql driver and store (SimDB)"},
 		Assume: []string{"identifiers come from an alphabet that cannot collide with statement syntax (no escape rune, comma, parenthesis)", "Precision(p) is checked as |got-want| <= 0.5*10^-p for |want| <= 1e9 only"},
 	},
+	"C04": {
+		ID: "C04", Level: "exploration",
+		Rule:   "cases = (generated frame 0..40 rows quick / 0..300 thorough incl. nulls, empty vs null strings, 0.0/-0.0, two NaN encodings, enums; scramble so that physical and logical order differ; any subset and order of key columns; Null setting; hash flavour: real memhash | seeded good hash | masked to 0..4 bits (collision storms) | low-32-bit clashes | seed-blind (multi-column keys collide) | length-only | high-32-only; math/rand seed); oracle = a dozen-line reference partition (Go map in frame order) for QFrames() and for Aggregate with built-in and recording user functions; a case is non-trivial when there are >=2 classes and the table saw >=1 insert collision or >=1 growth step (read from Grouper.Stats); distinct = distinct (classes, flavour, collision/relocation counts, keys, Null)",
+		Phases: []phase{{Engine: "hashsim", Test: "TestC04", QuickChecks: 25000, ThoroughChecks: 60000}},
+		Real:   commonReal,
+		Stub:   []string{"hash function behind internal/hash.HashBytes (verif hook) in all flavours but 'real'", "math/rand seed"},
+		Assume: []string{"float sums are compared numerically with the left-to-right fold in frame order (NaN equals NaN)", "'real' flavour runs are replayable up to group order only"},
+	},
+	"C05": {
+		ID: "C05", Level: "exploration",
+		Rule:   "same world as C04 (frames, key columns incl. none = all columns, Null setting, hash flavours); oracle: exactly one returned row per class of the reference partition, every returned row identical in every cell to the input row with its hidden id; non-trivial when 2 <= classes < rows; distinct = distinct (classes, flavour, keys, Null)",
+		Phases: []phase{{Engine: "hashsim", Test: "TestC05", QuickChecks: 40000, ThoroughChecks: 100000}},
+		Real:   commonReal,
+		Stub:   []string{"hash function behind internal/hash.HashBytes (verif hook) in all flavours but 'real'", "math/rand seed"},
+		Assume: []string{"with no key columns the hidden id column is dropped first and rows are matched by content"},
+	},
 	"C15": {
 		ID: "C15", Level: "fault_enumeration",
 		Rule:   "for every seeded input (CSV document+config, JSON document, frame for ToCSV/ToJSON/ToSQL, stored table for ReadSQL) the fault-free run is recorded, then EVERY fault position is executed: reader byte offsets 0..len (len = instead of EOF) x {(0,err), (k>0,err)} x {a drawn opaque kind, io.ErrUnexpectedEOF, wrapped io.EOF}; writer byte offsets 0..len-1 x {(0,err), short write} x drawn kind; driver calls (Prepare, Exec, Stmt.Exec, Query, every Rows.Next incl. the one that would report EOF) x {opaque, driver.ErrBadConn}; each under a freshly derived fragmentation plan. evaluations = fault runs; a run is non-trivial when the stub actually returned the injected error to its caller (fired); distinct = distinct (surface, input, position, shape, kind). Positions are exhaustive per input; inputs are sampled by seed.",
